@@ -6,6 +6,9 @@
  * Annotation identifiers never appear in the output: an identifier is shown as the tag/ref ANid2tagref gives.
  * Every buffer handed to the library is heap memory of exactly the advertised size, pre-filled with 0xEE.
  *
+ *   names A B C                the (up to 3) files of this history, created in the work directory (the child's cwd,
+ *                              so that one name can be a prefix/suffix of another); default: one file an<n>.hdf
+ *   file N                     every following operation works on file N (own session, own slots)       -> ok
  *   start                      Hopen(RDWR) + ANstart                                   -> ok
  *   end                        ANend + Hclose + DFANclear; all slots forgotten          -> ok
  *   create S type ttag tref    ANcreate -> slot S                                      -> ok tag ref | fail
@@ -45,9 +48,28 @@
 extern int ANIanncmp(void *i, void *j, int value);
 
 #define NS 64
-static int32 fid = FAIL, anid = FAIL;
-static int32 ids[NS];
-static char  fname[600];
+#define NFILES 3
+static int32 fids[NFILES], anids[NFILES];
+static int32 idtab[NFILES][NS];
+static char  fnames[NFILES][300];
+static int   nfiles = 1, cur = 0, files_made = 0;
+#define fid   (fids[cur])
+#define anid  (anids[cur])
+#define ids   (idtab[cur])
+#define fname (fnames[cur])
+
+static void make_files(void)
+{
+    static const int obj[6][2] = {{700, 1}, {700, 2}, {700, 3}, {700, 5}, {701, 1}, {701, 2}};
+    if (files_made) return;
+    files_made = 1;
+    for (int k = 0; k < nfiles; k++) {   /* the data objects DFANlablist looks for */
+        unlink(fnames[k]);
+        int32 f = Hopen(fnames[k], DFACC_CREATE, 0);
+        for (int i = 0; i < 6; i++) Hputelement(f, (uint16)obj[i][0], (uint16)obj[i][1], (const uint8 *)"obj", 3);
+        Hclose(f);
+    }
+}
 
 static int unhex(const char *s, unsigned char *out)
 {
@@ -86,15 +108,10 @@ static void run_history(const char *dir, long hno, char **lines, long *lnos, lon
 {
     static char line[400000], op[64], hex[390000];
     static unsigned char data[200000];
-    for (int i = 0; i < NS; i++) ids[i] = FAIL;
-    snprintf(fname, sizeof fname, "%s/an%ld.hdf", dir, hno);
-    unlink(fname);
-    {   /* the data objects DFANlablist looks for */
-        int32 f = Hopen(fname, DFACC_CREATE, 0);
-        static const int obj[6][2] = {{700, 1}, {700, 2}, {700, 3}, {700, 5}, {701, 1}, {701, 2}};
-        for (int i = 0; i < 6; i++) Hputelement(f, (uint16)obj[i][0], (uint16)obj[i][1], (const uint8 *)"obj", 3);
-        Hclose(f);
-    }
+    if (chdir(dir) != 0) _exit(3);
+    for (int k = 0; k < NFILES; k++) { fids[k] = anids[k] = FAIL; for (int i = 0; i < NS; i++) idtab[k][i] = FAIL; }
+    nfiles = 1; cur = 0; files_made = 0;
+    snprintf(fnames[0], sizeof fnames[0], "an%ld.hdf", hno);
     for (long li = 0; li < nlines; li++) {
         long ln = lnos[li];
         strncpy(line, lines[li], sizeof line - 1);
@@ -102,7 +119,22 @@ static void run_history(const char *dir, long hno, char **lines, long *lnos, lon
         hex[0] = 0;
         if (sscanf(line, "%63s", op) != 1 || op[0] == '#') { printf("%ld skip\n", ln); continue; }
         if (!strcmp(op, "history")) { printf("%ld history\n", ln); fflush(stdout); continue; }
+        if (!strcmp(op, "names")) {
+            char n0[100] = "", n1[100] = "", n2[100] = "";
+            int k = sscanf(line, "%*s %99s %99s %99s", n0, n1, n2);
+            if (k >= 1 && !files_made) {
+                nfiles = k;
+                strcpy(fnames[0], n0); strcpy(fnames[1], n1); strcpy(fnames[2], n2);
+            }
+            printf("%ld skip\n", ln); continue;
+        }
+        make_files();
         printf("%ld", ln);
+        if (!strcmp(op, "file")) {
+            sscanf(line, "%*s %ld", &a);
+            if (a >= 0 && a < nfiles) { cur = (int)a; printf(" ok\n"); } else printf(" fail\n");
+            fflush(stdout); continue;
+        }
         if (!strcmp(op, "start")) {
             int ok = 0;
             if (fid == FAIL) {
@@ -319,8 +351,7 @@ static void run_history(const char *dir, long hno, char **lines, long *lnos, lon
         else printf(" skip\n");
         fflush(stdout);
     }
-    if (fid != FAIL) { ANend(anid); Hclose(fid); }
-    unlink(fname);
+    for (cur = 0; cur < nfiles; cur++) { if (fid != FAIL) { ANend(anid); Hclose(fid); } unlink(fname); }
 }
 
 int main(int argc, char **argv)
